@@ -435,6 +435,8 @@ def main(argv=None) -> int:
         prop, agg["runs"], agg["nontrivial"], len(agg["nt_shapes"]), agg["wall"], nviol, len(agg["harness"])))
     for h in agg["harness"][:5]:
         print("HARNESS: " + h)
+    if agg["invalid"]:
+        print("note: %d generated scenarios were outside the model's domain and were skipped, e.g. %s" % (len(agg["invalid"]), agg["invalid"][0][:200]))
     if nviol:
         return 1
     if agg["harness"] or rc == 2 or agg["runs"] == 0:
